@@ -7,7 +7,7 @@ import sys
 ROOT = os.path.dirname(os.path.dirname(os.path.abspath(__file__)))
 
 # properties whose check exists, passes on the unchanged tree and was exercised against mutations
-CLAIMED = ["C11", "C14", "C19"]
+CLAIMED = ["C11", "C14", "C18", "C19"]
 
 T = {
  "C01": ("RVOLE algebra c+d=a*b proved in Coq for all oracles/inputs/tapes over Z mod q (both variants); composed executable model run "
